@@ -195,7 +195,7 @@ Proof.
     rewrite (eval_ie _ _ _ _ _ _ c (XName nf f) eq_refl lk), (args_loud args lk Ha).
     destruct (ref_e (XName nf f) lk) as [[vf|e] lf]; cbn [fst snd fsay].
     + destruct (ref_args false args lk) as [[vs|e] la]; cbn [fst snd].
-      * destruct vf as [z|b| |s0|g]; try (split; [reflexivity|fin]).
+      * destruct vf as [z|b| |s0|g|k|ra rb]; try (split; [reflexivity|fin]).
         assert (HP : fl (p2 ++ fl lf ++ (if sub c E_before_call then [(E_before_call, cn, Some (VFun g))] else []) ++ fl la) =
                      fl (p' ++ ([(E_before_load_complex_symbol, cn, None)] ++ lf ++ [(E_before_call, cn, Some (VFun g))]) ++ la)).
         { destruct (sub c E_before_call) eqn:E2; rewrite !fl_app, Hp2, !fl_app, Hp, !fl_idem, ?fl_single, ?fl_nil, ?E2; cbn [app];
@@ -220,7 +220,7 @@ Proof.
     destruct (args_quiet args lk Ha) as [A1 A2]. rewrite A1.
     destruct (ref_e (XName nf f) lk) as [[vf|e] lf]; cbn [fst snd fsay app].
     + destruct (ref_args true args lk) as [[vs|e] la]; cbn [fst snd] in *; subst la.
-      * destruct vf as [z|b| |s0|g]; try (split; reflexivity).
+      * destruct vf as [z|b| |s0|g|k|ra rb]; try (split; reflexivity).
         assert (HP : fl (p ++ [] ++ [] ++ []) = fl (p' ++ [] ++ [])) by (cbn [app]; rewrite !app_nil_r; exact Hp).
         destruct (call_ok g vs glob sv _ _ HP) as [C1 C2].
         destruct (call g vs glob sv _) as [[q sv'] lc]. destruct (callr g vs glob _) as [q' lc']. cbn [fst snd] in C1, C2. subst q'.
@@ -877,7 +877,7 @@ Proof.
     destruct (args_quiet args lk Ha) as [A1 _]. rewrite A1. rewrite (ref_args_fst true q args lk).
     destruct (ref_e (XName nf f) lk) as [[vf|e] lf]; cbn [fst snd]; [|reflexivity].
     destruct (ref_args q args lk) as [[vs|e] la]; cbn [fst snd]; [|reflexivity].
-    destruct vf as [z|b| |s0|g]; try reflexivity.
+    destruct vf as [z|b| |s0|g|k|ra rb]; try reflexivity.
     match goal with |- context [call g vs glob sv ?P] => pose proof (call_ok g vs glob sv P (p' ++ (fsay q [(E_before_load_complex_symbol, cn, None)] ++ fsay q (lf ++ [(E_before_call, cn, Some (VFun g))])) ++ la)) as C1 end.
     destruct (call g vs glob sv _) as [[x sv'] lc]. destruct (callr g vs glob _) as [x' lc']. cbn [fst snd] in C1. subst x'. reflexivity.
 Qed.
